@@ -1,11 +1,687 @@
-//! C23 — not built yet (see DESIGN.md §5 C23).
+//! C23 — the SQL parser is total (DESIGN §5 C23; style D, engine E4 with worker subprocesses).
+//!
+//! Space (all of it enumerated, nothing sampled):
+//!   seed      every seed of `corpus::SEEDS` unchanged (0 edits)
+//!   trunc     every proper prefix (char boundary) of every seed
+//!   char1     every single char edit (substitute / insert / delete over `mutate::SIGMA_C`) of every seed
+//!   tok1      every single token edit (delete / duplicate / swap-adjacent / replace-by-word /
+//!             insert-word over `mutate::VOCAB`) of every seed
+//!   tokstr    every word string of length <= 3 (quick, 24 words) / <= 4 (thorough, all words) over `mutate::VOCAB`
+//!   nest      nesting families x depth in {1,10,100,1000,10000,100000}
+//!   size      size families (1 MiB tokens, 10^5-element lists, ...)
+//!   char2     (thorough) every pair of char edits of every seed of <= CHAR2_MAX_CHARS chars
+//!   tok2      (thorough) every pair of token edits of every seed of <= TOK2_MAX_TOKS tokens
+//! Oracle: `Parser::parse_sql(input)` returns Ok or Err (and the returned statement can be dropped)
+//! on a thread with a 2 MiB stack, within the CPU deadline; a panic, a dead worker process (stack
+//! overflow → SIGSEGV/abort) or a blown deadline is a violation attributed to the in-flight case.
 
-pub fn run(_tier: &str) -> i32 {
-    eprintln!("MACHINERY-ERROR C23 is not built yet");
-    2
+use std::collections::BTreeMap;
+use std::panic::{catch_unwind, AssertUnwindSafe};
+use std::time::Duration;
+
+use serde_json::{json, Value};
+use vcore::report::Report;
+
+use crate::corpus;
+use crate::iso::{self, ChunkOut, Progress, Space};
+use crate::mutate as mu;
+
+/// Stack of the thread that calls the parser: Rust's default for spawned threads (what a
+/// `cargo test` thread or a tokio worker of vibesql-server has).
+pub const STACK: usize = 2 << 20;
+pub const DEPTHS: &[usize] = &[1, 10, 100, 1_000, 10_000, 100_000];
+const CHAR2_MAX_CHARS: usize = 30;
+const TOK2_MAX_TOKS: usize = 9;
+
+struct Seed {
+    name: &'static str,
+    text: &'static str,
+    chars: Vec<char>,
+    toks: Vec<String>,
 }
 
-pub fn replay(_case: &serde_json::Value) -> i32 {
-    eprintln!("MACHINERY-ERROR C23 is not built yet");
-    2
+#[derive(Debug, Clone)]
+enum GK {
+    Seed,
+    Trunc,
+    Char1,
+    Tok1,
+    /// words string of length `len` whose first `fixed.len()` words are fixed
+    TokStr { len: usize, fixed: Vec<usize> },
+    Nest { fam: &'static str, depth: usize },
+    Size { fam: &'static str },
+    Char2 { first: u64 },
+    Tok2 { first: u64 },
+}
+
+struct Group {
+    kind: GK,
+    seed: usize,
+    count: u64,
+}
+
+pub struct C23 {
+    thorough: bool,
+    /// size of the vocabulary prefix used by token edits and word strings
+    k: usize,
+    /// size of the char alphabet prefix used by char edits
+    ca: usize,
+    seeds: Vec<Seed>,
+    groups: Vec<Group>,
+    /// starts[i] = index of the first case of group i; starts[len] = total
+    starts: Vec<u64>,
+}
+
+fn pow(b: u64, e: usize) -> u64 {
+    (0..e).fold(1u64, |a, _| a * b)
+}
+
+impl C23 {
+    pub fn new(tier: &str) -> C23 {
+        let thorough = tier == "thorough";
+        let seeds: Vec<Seed> =
+            corpus::SEEDS.iter().map(|(n, t)| Seed { name: n, text: t, chars: t.chars().collect(), toks: mu::tokens(t) }).collect();
+        let mut groups = vec![];
+        let k = if thorough { mu::VOCAB.len() } else { mu::VOCAB_QUICK };
+        let kk = k as u64;
+        let ca = if thorough { mu::SIGMA_C.len() } else { mu::SIGMA_C_QUICK };
+        // simplest first: seeds, families (always run: the wall budget must never skip them), short word
+        // strings, truncations, single edits, double edits
+        for (i, _) in seeds.iter().enumerate() {
+            groups.push(Group { kind: GK::Seed, seed: i, count: 1 });
+        }
+        for &d in DEPTHS {
+            for fam in mu::NEST_FAMILIES {
+                groups.push(Group { kind: GK::Nest { fam, depth: d }, seed: 0, count: 1 });
+            }
+        }
+        for fam in mu::SIZE_FAMILIES {
+            groups.push(Group { kind: GK::Size { fam }, seed: 0, count: 1 });
+        }
+        groups.push(Group { kind: GK::TokStr { len: 0, fixed: vec![] }, seed: 0, count: 1 });
+        groups.push(Group { kind: GK::TokStr { len: 1, fixed: vec![] }, seed: 0, count: kk });
+        groups.push(Group { kind: GK::TokStr { len: 2, fixed: vec![] }, seed: 0, count: pow(kk, 2) });
+        groups.push(Group { kind: GK::TokStr { len: 3, fixed: vec![] }, seed: 0, count: pow(kk, 3) });
+        for (i, s) in seeds.iter().enumerate() {
+            groups.push(Group { kind: GK::Trunc, seed: i, count: s.chars.len() as u64 });
+        }
+        for (i, s) in seeds.iter().enumerate() {
+            groups.push(Group { kind: GK::Char1, seed: i, count: mu::n_char_edits(s.chars.len(), ca) });
+        }
+        for (i, s) in seeds.iter().enumerate() {
+            groups.push(Group { kind: GK::Tok1, seed: i, count: mu::n_tok_edits(s.toks.len(), k) });
+        }
+        if thorough {
+            for a in 0..k {
+                for b in 0..k {
+                    groups.push(Group { kind: GK::TokStr { len: 4, fixed: vec![a, b] }, seed: 0, count: pow(kk, 2) });
+                }
+            }
+            for (i, s) in seeds.iter().enumerate() {
+                let n = s.chars.len();
+                if n <= CHAR2_MAX_CHARS {
+                    for e in 0..mu::n_char_edits(n, ca) {
+                        let n2 = mu::len_after(n, mu::char_edit(n, ca, e));
+                        groups.push(Group { kind: GK::Char2 { first: e }, seed: i, count: mu::n_char_edits(n2, ca) });
+                    }
+                }
+            }
+            for (i, s) in seeds.iter().enumerate() {
+                let m = s.toks.len();
+                if m <= TOK2_MAX_TOKS {
+                    for e in 0..mu::n_tok_edits(m, k) {
+                        let m2 = mu::tok_len_after(m, mu::tok_edit(m, k, e));
+                        groups.push(Group { kind: GK::Tok2 { first: e }, seed: i, count: mu::n_tok_edits(m2, k) });
+                    }
+                }
+            }
+        }
+        let mut starts = Vec::with_capacity(groups.len() + 1);
+        let mut at = 0u64;
+        for g in &groups {
+            starts.push(at);
+            at += g.count;
+        }
+        starts.push(at);
+        C23 { thorough, k, ca, seeds, groups, starts }
+    }
+
+    pub fn family_sizes(&self) -> BTreeMap<&'static str, u64> {
+        let mut m = BTreeMap::new();
+        for g in &self.groups {
+            *m.entry(self.family(g)).or_insert(0) += g.count;
+        }
+        m
+    }
+
+    fn group_of(&self, idx: u64) -> usize {
+        // last group whose start <= idx and which is non-empty at idx
+        match self.starts.binary_search(&idx) {
+            Ok(mut g) => {
+                // several empty groups may share a start; take the one that contains idx
+                while g + 1 < self.starts.len() && self.starts[g + 1] == idx {
+                    g += 1;
+                }
+                g
+            }
+            Err(g) => g - 1,
+        }
+    }
+
+    fn family(&self, g: &Group) -> &'static str {
+        match g.kind {
+            GK::Seed => "seed",
+            GK::Trunc => "trunc",
+            GK::Char1 => "char1",
+            GK::Tok1 => "tok1",
+            GK::TokStr { .. } => "tokstr",
+            GK::Nest { .. } => "nest",
+            GK::Size { .. } => "size",
+            GK::Char2 { .. } => "char2",
+            GK::Tok2 { .. } => "tok2",
+        }
+    }
+
+    /// (input, signature, how it was generated) of case `k` of group `gi`
+    fn gen(&self, gi: usize, k: u64) -> (String, Vec<(String, String)>, String) {
+        let g = &self.groups[gi];
+        let s = &self.seeds[g.seed];
+        let fam = self.family(g);
+        let mut sig: Vec<(String, String)> = vec![("family".into(), fam.into())];
+        match &g.kind {
+            GK::Seed => {
+                sig.push(("seed".into(), s.name.into()));
+                (s.text.to_string(), sig, format!("seed {}", s.name))
+            }
+            GK::Trunc => {
+                sig.push(("seed".into(), s.name.into()));
+                (s.chars[..k as usize].iter().collect(), sig, format!("first {} chars of seed {}", k, s.name))
+            }
+            GK::Char1 => {
+                let ed = mu::char_edit(s.chars.len(), self.ca, k);
+                sig.push(("seed".into(), s.name.into()));
+                sig.push(("edit".into(), ed.kind().into()));
+                sig.push(("class".into(), ed.class().into()));
+                (mu::apply_char_edit(&s.chars, ed).iter().collect(), sig, format!("seed {} with {:?}", s.name, ed))
+            }
+            GK::Char2 { first } => {
+                let e1 = mu::char_edit(s.chars.len(), self.ca, *first);
+                let s1 = mu::apply_char_edit(&s.chars, e1);
+                let e2 = mu::char_edit(s1.len(), self.ca, k);
+                sig.push(("seed".into(), s.name.into()));
+                sig.push(("edit".into(), format!("{}+{}", e1.kind(), e2.kind())));
+                sig.push(("class".into(), format!("{}+{}", e1.class(), e2.class())));
+                (mu::apply_char_edit(&s1, e2).iter().collect(), sig, format!("seed {} with {:?} then {:?}", s.name, e1, e2))
+            }
+            GK::Tok1 => {
+                let ed = mu::tok_edit(s.toks.len(), self.k, k);
+                sig.push(("seed".into(), s.name.into()));
+                sig.push(("edit".into(), ed.kind().into()));
+                (mu::join(&mu::apply_tok_edit(&s.toks, ed)), sig, format!("seed {} with token edit {:?} ({})", s.name, ed, ed.word()))
+            }
+            GK::Tok2 { first } => {
+                let e1 = mu::tok_edit(s.toks.len(), self.k, *first);
+                let t1 = mu::apply_tok_edit(&s.toks, e1);
+                let e2 = mu::tok_edit(t1.len(), self.k, k);
+                sig.push(("seed".into(), s.name.into()));
+                sig.push(("edit".into(), format!("{}+{}", e1.kind(), e2.kind())));
+                (
+                    mu::join(&mu::apply_tok_edit(&t1, e2)),
+                    sig,
+                    format!("seed {} with token edits {:?} ({}) then {:?} ({})", s.name, e1, e1.word(), e2, e2.word()),
+                )
+            }
+            GK::TokStr { len, fixed } => {
+                let kk = self.k as u64;
+                let mut words: Vec<&str> = fixed.iter().map(|&i| mu::VOCAB[i]).collect();
+                let free = len - fixed.len();
+                let mut digits = vec![0usize; free];
+                let mut r = k;
+                for d in (0..free).rev() {
+                    digits[d] = (r % kk) as usize;
+                    r /= kk;
+                }
+                words.extend(digits.iter().map(|&i| mu::VOCAB[i]));
+                sig.push(("len".into(), len.to_string()));
+                sig.push(("first".into(), words.first().copied().unwrap_or("").to_string()));
+                (words.join(" "), sig, format!("word string of length {}", len))
+            }
+            GK::Nest { fam, depth } => {
+                sig.push(("shape".into(), fam.to_string()));
+                sig.push(("depth".into(), depth.to_string()));
+                (mu::nest(fam, *depth).expect("family"), sig, format!("nesting family {} at depth {}", fam, depth))
+            }
+            GK::Size { fam } => {
+                sig.push(("shape".into(), fam.to_string()));
+                (mu::size(fam).expect("family"), sig, format!("size family {}", fam))
+            }
+        }
+    }
+
+    fn case_json(&self, gi: usize, input: &str, how: &str) -> Value {
+        let g = &self.groups[gi];
+        match &g.kind {
+            GK::Nest { fam, depth } => json!({"nest": fam, "depth": depth, "how": how, "input_bytes": input.len(), "input_head": vcore::util::trunc(input, 120)}),
+            GK::Size { fam } => json!({"size": fam, "how": how, "input_bytes": input.len(), "input_head": vcore::util::trunc(input, 120)}),
+            _ => json!({"input": input, "how": how}),
+        }
+    }
+
+    fn run_inner(&self, from: u64, to: u64, p: &Progress) -> ChunkOut {
+        let mut out = ChunkOut::default();
+        let mut gi = self.group_of(from);
+        let mut idx = from;
+        while idx < to {
+            while self.starts[gi + 1] <= idx {
+                gi += 1;
+            }
+            let k = idx - self.starts[gi];
+            let (input, sig, how) = self.gen(gi, k);
+            let fam = self.family(&self.groups[gi]);
+            p.begin(idx);
+            let o = probe(&input, Some((p, idx)));
+            out.evaluated += 1;
+            out.count(&format!("cases.{}", fam), 1);
+            match &o {
+                Outcome::Ok(v) => {
+                    out.count(&format!("ok.{}", fam), 1);
+                    if !out.distinct.contains(&format!("ok:{}", v)) {
+                        out.distinct.insert(format!("ok:{}", v));
+                        out.samples.push(json!({"key": format!("ok:{}", v), "input": vcore::util::trunc(&input, 200), "how": how, "observed": format!("Ok({})", v)}));
+                    }
+                }
+                Outcome::Err(class, msg) => {
+                    out.count(&format!("err.{}", fam), 1);
+                    let key = format!("err:{}:{}", class, fam);
+                    if !out.distinct.contains(&key) {
+                        out.distinct.insert(key.clone());
+                        out.samples.push(json!({"key": key, "input": vcore::util::trunc(&input, 200), "how": how, "observed": vcore::util::trunc(msg, 160)}));
+                    }
+                }
+                Outcome::Panic(phase, msg) => {
+                    // re-execute twice from scratch
+                    let again: Vec<Outcome> = (0..2).map(|_| probe(&input, None)).collect();
+                    if again.iter().all(|a| matches!(a, Outcome::Panic(..))) {
+                        let mut sig = sig.clone();
+                        sig.push(("fate".into(), "panic".into()));
+                        out.count("fate.panic", 1);
+                        out.viol(idx, sig, format!("panic while {} ({}): {}", phase, how, vcore::util::trunc(msg, 300)), self.case_json(gi, &input, &how));
+                    } else {
+                        out.machinery.push(format!("case {} panicked once but not on re-execution: {:?}", idx, again));
+                    }
+                }
+            }
+            idx += 1;
+        }
+        p.begin(u64::MAX);
+        out
+    }
+}
+
+#[derive(Debug, Clone)]
+pub enum Outcome {
+    Ok(&'static str),
+    /// class (lexer / parser), message
+    Err(&'static str, String),
+    /// phase, message
+    Panic(&'static str, String),
+}
+
+fn variant(s: &vibesql_ast::Statement) -> &'static str {
+    use vibesql_ast::Statement as S;
+    match s {
+        S::Select(_) => "Select",
+        S::Insert(_) => "Insert",
+        S::Update(_) => "Update",
+        S::Delete(_) => "Delete",
+        S::CreateTable(_) => "CreateTable",
+        S::DropTable(_) => "DropTable",
+        S::TruncateTable(_) => "TruncateTable",
+        S::AlterTable(_) => "AlterTable",
+        S::CreateSchema(_) => "CreateSchema",
+        S::DropSchema(_) => "DropSchema",
+        S::SetSchema(_) => "SetSchema",
+        S::SetCatalog(_) => "SetCatalog",
+        S::SetNames(_) => "SetNames",
+        S::SetTimeZone(_) => "SetTimeZone",
+        S::SetTransaction(_) => "SetTransaction",
+        S::SetVariable(_) => "SetVariable",
+        S::CreateRole(_) => "CreateRole",
+        S::DropRole(_) => "DropRole",
+        S::BeginTransaction(_) => "BeginTransaction",
+        S::Commit(_) => "Commit",
+        S::Rollback(_) => "Rollback",
+        S::Savepoint(_) => "Savepoint",
+        S::RollbackToSavepoint(_) => "RollbackToSavepoint",
+        S::ReleaseSavepoint(_) => "ReleaseSavepoint",
+        S::Grant(_) => "Grant",
+        S::Revoke(_) => "Revoke",
+        S::CreateDomain(_) => "CreateDomain",
+        S::DropDomain(_) => "DropDomain",
+        S::CreateSequence(_) => "CreateSequence",
+        S::AlterSequence(_) => "AlterSequence",
+        S::DropSequence(_) => "DropSequence",
+        S::CreateType(_) => "CreateType",
+        S::DropType(_) => "DropType",
+        S::CreateCollation(_) => "CreateCollation",
+        S::DropCollation(_) => "DropCollation",
+        S::CreateCharacterSet(_) => "CreateCharacterSet",
+        S::DropCharacterSet(_) => "DropCharacterSet",
+        S::CreateTranslation(_) => "CreateTranslation",
+        S::DropTranslation(_) => "DropTranslation",
+        S::CreateView(_) => "CreateView",
+        S::DropView(_) => "DropView",
+        S::CreateTrigger(_) => "CreateTrigger",
+        S::AlterTrigger(_) => "AlterTrigger",
+        S::DropTrigger(_) => "DropTrigger",
+        S::CreateIndex(_) => "CreateIndex",
+        S::DropIndex(_) => "DropIndex",
+        S::Reindex(_) => "Reindex",
+        S::Analyze(_) => "Analyze",
+        S::CreateAssertion(_) => "CreateAssertion",
+        S::DropAssertion(_) => "DropAssertion",
+        S::DeclareCursor(_) => "DeclareCursor",
+        S::OpenCursor(_) => "OpenCursor",
+        S::Fetch(_) => "Fetch",
+        S::CloseCursor(_) => "CloseCursor",
+        S::CreateProcedure(_) => "CreateProcedure",
+        S::DropProcedure(_) => "DropProcedure",
+        S::CreateFunction(_) => "CreateFunction",
+        S::DropFunction(_) => "DropFunction",
+        S::Call(_) => "Call",
+        S::ShowTables(_) => "ShowTables",
+        S::ShowDatabases(_) => "ShowDatabases",
+        S::ShowColumns(_) => "ShowColumns",
+        S::ShowIndex(_) => "ShowIndex",
+        S::ShowCreateTable(_) => "ShowCreateTable",
+        S::Describe(_) => "Describe",
+        #[allow(unreachable_patterns)]
+        _ => "Other",
+    }
+}
+
+/// One parse (and drop of the result) with panics caught. Must run on the thread whose stack is
+/// the stated bound.
+pub fn probe(input: &str, mark: Option<(&Progress, u64)>) -> Outcome {
+    let r = catch_unwind(|| vibesql_parser::Parser::parse_sql(input));
+    match r {
+        Ok(Ok(stmt)) => {
+            let v = variant(&stmt);
+            if let Some((p, idx)) = mark {
+                p.phase(idx, "dropping the returned statement");
+            }
+            match catch_unwind(AssertUnwindSafe(move || drop(stmt))) {
+                Ok(()) => Outcome::Ok(v),
+                Err(pl) => Outcome::Panic("dropping the returned statement", vcore::exec::panic_msg(pl)),
+            }
+        }
+        Ok(Err(e)) => {
+            let class = if e.message.starts_with("Lexer error") { "lexer" } else { "parser" };
+            Outcome::Err(class, e.message)
+        }
+        Err(pl) => Outcome::Panic("parsing", vcore::exec::panic_msg(pl)),
+    }
+}
+
+impl Space for C23 {
+    fn total(&self) -> u64 {
+        *self.starts.last().unwrap()
+    }
+    fn chunk(&self) -> u64 {
+        if self.thorough {
+            400_000
+        } else {
+            12_000
+        }
+    }
+    fn ranges(&self) -> Vec<(u64, u64)> {
+        // The nesting families of one depth share a worker process, the size families share four
+        // (a death is attributed by iso::run_range and the rest of the range continues in a fresh
+        // process); everything else is cut into chunks.
+        let chunk = self.chunk();
+        let mut cuts: Vec<u64> = vec![0];
+        let mut prev_key = String::new();
+        let mut size_seen = 0usize;
+        for (gi, g) in self.groups.iter().enumerate() {
+            let key = match &g.kind {
+                GK::Nest { depth, .. } => format!("nest{}", depth),
+                GK::Size { .. } => {
+                    size_seen += 1;
+                    format!("size{}", (size_seen - 1) / 9)
+                }
+                _ => "bulk".to_string(),
+            };
+            if key != prev_key {
+                cuts.push(self.starts[gi]);
+                prev_key = key;
+            }
+        }
+        cuts.push(self.total());
+        cuts.dedup();
+        let mut out = vec![];
+        for w in cuts.windows(2) {
+            let (mut a, b) = (w[0], w[1]);
+            while b - a > chunk + chunk / 2 {
+                out.push((a, a + chunk));
+                a += chunk;
+            }
+            if b > a {
+                out.push((a, b));
+            }
+        }
+        out
+    }
+    fn case_deadline(&self) -> Duration {
+        // wall-clock guard against a blocking hang; the bound that matters is cpu_limit
+        Duration::from_secs(600)
+    }
+    fn cpu_limit(&self) -> Duration {
+        // the largest inputs are ~1.2 MB and parse in well under a second on an idle core; the
+        // limit is generous because CPU-time accounting on an oversubscribed host is noisy
+        Duration::from_secs(30)
+    }
+    fn run(&self, from: u64, to: u64, p: &Progress) -> ChunkOut {
+        std::thread::scope(|s| {
+            let h = std::thread::Builder::new().stack_size(STACK).spawn_scoped(s, || self.run_inner(from, to, p)).expect("spawn parser thread");
+            match h.join() {
+                Ok(o) => o,
+                Err(pl) => {
+                    let mut o = ChunkOut::default();
+                    o.machinery.push(format!("harness thread panicked: {}", vcore::exec::panic_msg(pl)));
+                    o
+                }
+            }
+        })
+    }
+    fn describe(&self, idx: u64) -> (Vec<(String, String)>, Value) {
+        let gi = self.group_of(idx);
+        let (input, sig, how) = self.gen(gi, idx - self.starts[gi]);
+        (sig, self.case_json(gi, &input, &how))
+    }
+}
+
+pub fn space(tier: &str) -> C23 {
+    C23::new(tier)
+}
+
+pub fn run(tier: &str) -> i32 {
+    let mut rep = Report::new("C23", tier, "exploration");
+    let sp = C23::new(tier);
+
+    // non-vacuity of the corpus: which Statement variants / expression forms the seeds reach
+    let mut variants: BTreeMap<&str, usize> = BTreeMap::new();
+    let mut forms: BTreeMap<&str, usize> = BTreeMap::new();
+    let mut rejected = vec![];
+    for s in &sp.seeds {
+        match vcore::exec::parse(s.text) {
+            Ok(st) => {
+                *variants.entry(variant(&st)).or_insert(0) += 1;
+                let dbg = format!("{:?}", st);
+                for (name, needle) in corpus::EXPRESSION_FORMS {
+                    if dbg.contains(needle) {
+                        *forms.entry(name).or_insert(0) += 1;
+                    }
+                }
+            }
+            Err(_) => rejected.push(s.name),
+        }
+    }
+    let missing_variants: Vec<&str> = corpus::STATEMENT_VARIANTS.iter().copied().filter(|v| !variants.contains_key(v)).collect();
+    let missing_forms: Vec<&str> = corpus::EXPRESSION_FORMS.iter().map(|(n, _)| *n).filter(|n| !forms.contains_key(n)).collect();
+    if !missing_variants.is_empty() || !missing_forms.is_empty() || !rejected.is_empty() {
+        eprintln!("WARNING C23 corpus: seeds rejected by the parser {:?}; Statement variants not reached {:?}; expression forms not reached {:?}", rejected, missing_variants, missing_forms);
+    }
+
+    let budget = Duration::from_secs(if sp.thorough { 600 } else { 120 });
+    let all = iso::drive(&sp, &mut rep, budget);
+
+    let fam_counts: BTreeMap<String, u64> = all.counters.iter().filter(|(k, _)| k.starts_with("cases.")).map(|(k, v)| (k.clone(), *v)).collect();
+    let ok: u64 = all.counters.iter().filter(|(k, _)| k.starts_with("ok.")).map(|(_, v)| *v).sum();
+    let err: u64 = all.counters.iter().filter(|(k, _)| k.starts_with("err.")).map(|(_, v)| *v).sum();
+    println!(
+        "C23 {}: {} inputs ({} seeds); parsed Ok {} / Err {}; distinct outcome classes {}; panics {} process deaths {} hangs {}",
+        tier,
+        all.evaluated,
+        sp.seeds.len(),
+        ok,
+        err,
+        all.distinct.len(),
+        all.counters.get("fate.panic").copied().unwrap_or(0),
+        all.counters.get("fate.process_death").copied().unwrap_or(0),
+        all.counters.get("fate.hang").copied().unwrap_or(0)
+    );
+    println!("C23 per family: {:?}", fam_counts);
+    println!(
+        "C23 corpus reach: {}/{} Statement variants, {}/{} expression forms (missing: {:?} {:?}; rejected seeds: {:?})",
+        corpus::STATEMENT_VARIANTS.len() - missing_variants.len(),
+        corpus::STATEMENT_VARIANTS.len(),
+        corpus::EXPRESSION_FORMS.len() - missing_forms.len(),
+        corpus::EXPRESSION_FORMS.len(),
+        missing_forms,
+        missing_variants,
+        rejected
+    );
+    rep.set("outcomes", json!({"ok": ok, "err": err}));
+    rep.set(
+        "reach",
+        json!({
+            "statement_variants_reached_by_seeds": variants,
+            "expression_forms_reached_by_seeds": forms,
+            "statement_variants_missing": missing_variants,
+            "expression_forms_missing": missing_forms,
+            "seeds_rejected_by_parser": rejected,
+            "distinct_outcomes": all.distinct,
+        }),
+    );
+    rep.set(
+        "bounds",
+        json!({
+            "seeds": sp.seeds.len(),
+            "char_alphabet": mu::SIGMA_C[..sp.ca].iter().map(|c| c.escape_default().to_string()).collect::<Vec<_>>(),
+            "vocabulary": &mu::VOCAB[..sp.k],
+            "char_edits": if sp.thorough { format!("<=1 on every seed, <=2 on seeds of <= {} chars", CHAR2_MAX_CHARS) } else { "<=1 on every seed".to_string() },
+            "token_edits": if sp.thorough { format!("<=1 on every seed, <=2 on seeds of <= {} tokens", TOK2_MAX_TOKS) } else { "<=1 on every seed".to_string() },
+            "word_strings_max_len": if sp.thorough { 4 } else { 3 },
+            "vocabulary_words": sp.k,
+            "nesting_families": mu::NEST_FAMILIES,
+            "nesting_depths": DEPTHS,
+            "size_families": mu::SIZE_FAMILIES,
+            "stack_bytes": STACK,
+            "cpu_deadline_s": sp.cpu_limit().as_secs(),
+        }),
+    );
+    rep.set(
+        "rule",
+        json!("every seed, every proper prefix, every <=k char edit and <=k token edit of the seeds (k per tier, see bounds), every word string up to the length bound, every nesting family x depth and every size family is parsed by vibesql_parser::Parser::parse_sql in a worker subprocess on a thread with a 2 MiB stack; the returned statement is dropped. Oracle: Ok or Err within the CPU deadline; a panic (catch_unwind), a dead worker (SIGSEGV/abort: stack overflow) or a blown deadline is a violation attributed to the in-flight case and re-executed. distinct_nontrivial = distinct (Ok x Statement variant) and (Err x lexer|parser x family) classes observed"),
+    );
+    rep.assume("the parser is called on a thread with at least 2 MiB of stack (Rust's default for spawned threads); release build of the harness profile");
+    rep.assume("error messages are not compared; a valid statement that is rejected and an invalid one that is accepted are both outside the property");
+    rep.finish()
+}
+
+fn input_of_case(case: &Value) -> Option<String> {
+    if let Some(s) = case.get("input").and_then(|x| x.as_str()) {
+        return Some(s.to_string());
+    }
+    if let (Some(f), Some(d)) = (case.get("nest").and_then(|x| x.as_str()), case.get("depth").and_then(|x| x.as_u64())) {
+        return mu::nest(f, d as usize);
+    }
+    if let Some(f) = case.get("size").and_then(|x| x.as_str()) {
+        return mu::size(f);
+    }
+    None
+}
+
+/// `totalcheck c23-one <file>`: parse the file's content on a 2 MiB thread; exit 0 returned, 4 panic
+pub fn one(path: &str) -> i32 {
+    let Ok(input) = std::fs::read_to_string(path) else {
+        eprintln!("cannot read {}", path);
+        return 2;
+    };
+    let h = std::thread::Builder::new().stack_size(STACK).spawn(move || probe(&input, None)).expect("spawn");
+    match h.join() {
+        Ok(Outcome::Ok(v)) => {
+            println!("returned Ok({})", v);
+            0
+        }
+        Ok(Outcome::Err(c, m)) => {
+            println!("returned Err[{}]: {}", c, vcore::util::trunc(&m, 300));
+            0
+        }
+        Ok(Outcome::Panic(ph, m)) => {
+            println!("PANIC while {}: {}", ph, vcore::util::trunc(&m, 300));
+            4
+        }
+        Err(_) => 2,
+    }
+}
+
+pub fn replay(case: &Value) -> i32 {
+    let Some(input) = input_of_case(case) else {
+        eprintln!("replay case has no input");
+        return 2;
+    };
+    println!("input ({} bytes): {}", input.len(), vcore::util::trunc(&input, 300));
+    let tmp = format!("/tmp/total-replay-{}.sql", std::process::id());
+    if std::fs::write(&tmp, &input).is_err() {
+        return 2;
+    }
+    let exe = std::env::current_exe().expect("exe");
+    let mut child = match std::process::Command::new(exe).args(["c23-one", &tmp]).spawn() {
+        Ok(c) => c,
+        Err(_) => return 2,
+    };
+    // deadline: 30 s wall
+    let start = std::time::Instant::now();
+    let status = loop {
+        match child.try_wait() {
+            Ok(Some(st)) => break Some(st),
+            Ok(None) if start.elapsed() > Duration::from_secs(30) => {
+                let _ = child.kill();
+                let _ = child.wait();
+                break None;
+            }
+            Ok(None) => std::thread::sleep(Duration::from_millis(10)),
+            Err(_) => break None,
+        }
+    };
+    let _ = std::fs::remove_file(&tmp);
+    match status {
+        None => {
+            println!("observed: no result within 30 s (killed) — VIOLATION reproduced");
+            1
+        }
+        Some(st) if st.success() => {
+            println!("observed: the parser returned — property holds on this case");
+            0
+        }
+        Some(st) if st.code() == Some(4) => {
+            println!("observed: panic — VIOLATION reproduced");
+            1
+        }
+        Some(st) => {
+            println!("observed: parser process died ({}) — VIOLATION reproduced", st);
+            1
+        }
+    }
 }
